@@ -9,7 +9,7 @@ diagnostic that cannot be ignored raises `has_non_ignorable_parser_errors`, clea
 diagnostic once; the block for an ignored file leaves the private flag alone, shows nothing, and may raise
 `can_reset` only if no non-ignorable diagnostic has been seen. -/
 def blockSpec (p : EmitProg) (hn cr : Bool) : Bool :=
-  let s : Sess := ⟨hn, cr, 0, 0⟩
+  let s : Sess := ⟨hn, cr, 0, 0, []⟩
   let h := runStmts p.handle s
   let i := runStmts p.ignored s
   h.hasNonIgn && !h.canReset && h.shown == 1 && h.errCount == 0 &&
@@ -18,19 +18,21 @@ def blockSpec (p : EmitProg) (hn cr : Bool) : Bool :=
 def emitProgOk (p : EmitProg) : Bool :=
   blockSpec p false false && blockSpec p false true && blockSpec p true false && blockSpec p true true
 
-/-- a block's effect does not depend on the two counters, and it moves them by a fixed amount -/
+/-- a block's effect does not depend on the two counters or on the stash; it moves the counters by a fixed
+amount and leaves the stash alone -/
 theorem runStmts_counters (l : List Stmt) : ∀ (s : Sess),
-    (runStmts l s).hasNonIgn = (runStmts l ⟨s.hasNonIgn, s.canReset, 0, 0⟩).hasNonIgn ∧
-    (runStmts l s).canReset = (runStmts l ⟨s.hasNonIgn, s.canReset, 0, 0⟩).canReset ∧
-    (runStmts l s).errCount = s.errCount + (runStmts l ⟨s.hasNonIgn, s.canReset, 0, 0⟩).errCount ∧
-    (runStmts l s).shown = s.shown + (runStmts l ⟨s.hasNonIgn, s.canReset, 0, 0⟩).shown := by
+    (runStmts l s).hasNonIgn = (runStmts l ⟨s.hasNonIgn, s.canReset, 0, 0, []⟩).hasNonIgn ∧
+    (runStmts l s).canReset = (runStmts l ⟨s.hasNonIgn, s.canReset, 0, 0, []⟩).canReset ∧
+    (runStmts l s).errCount = s.errCount + (runStmts l ⟨s.hasNonIgn, s.canReset, 0, 0, []⟩).errCount ∧
+    (runStmts l s).shown = s.shown + (runStmts l ⟨s.hasNonIgn, s.canReset, 0, 0, []⟩).shown ∧
+    (runStmts l s).stash = s.stash := by
   induction l with
   | nil => intro s; simp [runStmts]
   | cons st r ih =>
     intro s
     simp only [runStmts]
     have h1 := ih (runStmt st s)
-    have h2 := ih (runStmt st ⟨s.hasNonIgn, s.canReset, 0, 0⟩)
+    have h2 := ih (runStmt st ⟨s.hasNonIgn, s.canReset, 0, 0, []⟩)
     cases st with
     | setHasNonIgn v => simp only [runStmt] at h1 h2 ⊢; simp only [Nat.zero_add] at h2; exact h1
     | storeCanReset v => simp only [runStmt] at h1 h2 ⊢; exact h1
@@ -39,39 +41,41 @@ theorem runStmts_counters (l : List Stmt) : ∀ (s : Sess),
       cases hh : s.hasNonIgn <;> simp only [hh, Bool.false_eq_true, if_false, if_true] at h1 h2 ⊢ <;> (try exact h1)
     | forward =>
       simp only [runStmt] at h1 h2 ⊢
-      obtain ⟨a1, a2, a3, a4⟩ := h1
-      obtain ⟨b1, b2, b3, b4⟩ := h2
+      obtain ⟨a1, a2, a3, a4, a5⟩ := h1
+      obtain ⟨b1, b2, b3, b4, _⟩ := h2
       simp only [Nat.zero_add] at b3 b4
-      refine ⟨?_, ?_, ?_, ?_⟩
+      refine ⟨?_, ?_, ?_, ?_, a5⟩
       · rw [a1, b1]
       · rw [a2, b2]
       · rw [a3, b3]
       · rw [a4, b4]; omega
 
 theorem sess_eq {a b : Sess} (h1 : a.hasNonIgn = b.hasNonIgn) (h2 : a.canReset = b.canReset)
-    (h3 : a.errCount = b.errCount) (h4 : a.shown = b.shown) : a = b := by
+    (h3 : a.errCount = b.errCount) (h4 : a.shown = b.shown) (h5 : a.stash = b.stash) : a = b := by
   cases a; cases b; simp_all
 
 /-- the two blocks of a program that passes the check, on any state -/
 theorem blocks_of_ok (p : EmitProg) (hp : emitProgOk p = true) (s : Sess) :
     runStmts p.handle s = { s with hasNonIgn := true, canReset := false, shown := s.shown + 1 } ∧
     runStmts p.ignored s = { s with canReset := if s.hasNonIgn then s.canReset else true } := by
-  obtain ⟨hn, cr, ec, sh⟩ := s
-  obtain ⟨a1, a2, a3, a4⟩ := runStmts_counters p.handle ⟨hn, cr, ec, sh⟩
-  obtain ⟨b1, b2, b3, b4⟩ := runStmts_counters p.ignored ⟨hn, cr, ec, sh⟩
+  obtain ⟨hn, cr, ec, sh, st⟩ := s
+  obtain ⟨a1, a2, a3, a4, a5⟩ := runStmts_counters p.handle ⟨hn, cr, ec, sh, st⟩
+  obtain ⟨b1, b2, b3, b4, b5⟩ := runStmts_counters p.ignored ⟨hn, cr, ec, sh, st⟩
   simp only [emitProgOk, blockSpec, Bool.and_eq_true, beq_iff_eq, Bool.not_eq_true'] at hp
-  simp only at a1 a2 a3 a4 b1 b2 b3 b4
+  simp only at a1 a2 a3 a4 a5 b1 b2 b3 b4 b5
   constructor
   · apply sess_eq <;> simp only
     · rw [a1]; cases hn <;> cases cr <;> simp_all
     · rw [a2]; cases hn <;> cases cr <;> simp_all
     · rw [a3]; cases hn <;> cases cr <;> simp_all
     · rw [a4]; cases hn <;> cases cr <;> simp_all
+    · exact a5
   · apply sess_eq <;> simp only
     · rw [b1]; cases hn <;> cases cr <;> simp_all
     · rw [b2]; cases hn <;> cases cr <;> simp_all
     · rw [b3]; cases hn <;> cases cr <;> simp_all
     · rw [b4]; cases hn <;> cases cr <;> simp_all
+    · exact b5
 
 /-- closed form of one emitter call for a program that passes the check -/
 theorem emitterStep_of_ok (p : EmitProg) (hp : emitProgOk p = true) (s : Sess) (d : Diag) :
@@ -81,42 +85,129 @@ theorem emitterStep_of_ok (p : EmitProg) (hp : emitProgOk p = true) (s : Sess) (
   obtain ⟨h1, h2⟩ := blocks_of_ok p hp s
   unfold emitterStep Diag.ignorable
   rw [h1, h2]
-  obtain ⟨lv, lc⟩ := d
+  obtain ⟨lv, lc, st⟩ := d
   cases lv <;> cases lc <;> (try rename_i b; cases b) <;> simp
 
-/-- one diagnostic through `DiagCtxt`, field by field -/
-theorem dcxEmit_of_ok (p : EmitProg) (hp : emitProgOk p = true) (s : Sess) (d : Diag) :
-    (dcxEmit p s d).hasNonIgn = (s.hasNonIgn || !d.ignorable) ∧
-    (dcxEmit p s d).canReset = (if d.ignorable then (if s.hasNonIgn then s.canReset else true) else false) ∧
-    (dcxEmit p s d).errCount = s.errCount + (if d.isError then 1 else 0) ∧
-    (dcxEmit p s d).shown = s.shown + (if d.ignorable then 0 else 1) := by
-  unfold dcxEmit
+/-- one diagnostic through `DiagCtxtInner::emit_diagnostic`, field by field -/
+theorem dcxEmitNow_of_ok (p : EmitProg) (hp : emitProgOk p = true) (s : Sess) (d : Diag) :
+    (dcxEmitNow p s d).hasNonIgn = (s.hasNonIgn || !d.ignorable) ∧
+    (dcxEmitNow p s d).canReset = (if d.ignorable then (if s.hasNonIgn then s.canReset else true) else false) ∧
+    (dcxEmitNow p s d).errCount = s.errCount + (if d.isError then 1 else 0) ∧
+    (dcxEmitNow p s d).shown = s.shown + (if d.ignorable then 0 else 1) ∧
+    (dcxEmitNow p s d).stash = s.stash := by
+  unfold dcxEmitNow
   rw [emitterStep_of_ok p hp]
   cases hi : d.ignorable <;> cases he : d.isError <;> simp
 
-/-- **closed form of a whole sequence of diagnostics**, from any state -/
-theorem emitAll_of_ok (p : EmitProg) (hp : emitProgOk p = true) : ∀ (ds : List Diag) (s : Sess),
-    (emitAll p s ds).hasNonIgn = (s.hasNonIgn || ds.any (fun d => !d.ignorable)) ∧
-    (emitAll p s ds).canReset =
+/-- **closed form of a whole sequence of emitted diagnostics**, from any state -/
+theorem emitNowAll_of_ok (p : EmitProg) (hp : emitProgOk p = true) : ∀ (ds : List Diag) (s : Sess),
+    (emitNowAll p s ds).hasNonIgn = (s.hasNonIgn || ds.any (fun d => !d.ignorable)) ∧
+    (emitNowAll p s ds).canReset =
       (if ds.any (fun d => !d.ignorable) then false else (s.canReset || (!s.hasNonIgn && !ds.isEmpty))) ∧
-    (emitAll p s ds).errCount = s.errCount + ds.countP Diag.isError ∧
-    (emitAll p s ds).shown = s.shown + ds.countP (fun d => !d.ignorable) := by
+    (emitNowAll p s ds).errCount = s.errCount + ds.countP Diag.isError ∧
+    (emitNowAll p s ds).shown = s.shown + ds.countP (fun d => !d.ignorable) ∧
+    (emitNowAll p s ds).stash = s.stash := by
   intro ds
   induction ds with
-  | nil => intro s; simp [emitAll]
+  | nil => intro s; simp [emitNowAll]
   | cons d r ih =>
     intro s
-    obtain ⟨h1, h2, h3, h4⟩ := ih (dcxEmit p s d)
-    obtain ⟨g1, g2, g3, g4⟩ := dcxEmit_of_ok p hp s d
-    simp only [emitAll]
-    rw [h1, h2, h3, h4, g1, g2, g3, g4]
+    obtain ⟨h1, h2, h3, h4, h5⟩ := ih (dcxEmitNow p s d)
+    obtain ⟨g1, g2, g3, g4, g5⟩ := dcxEmitNow_of_ok p hp s d
+    simp only [emitNowAll]
+    rw [h1, h2, h3, h4, h5, g1, g2, g3, g4, g5]
     simp only [List.any_cons, List.countP_cons, List.isEmpty_cons]
-    refine ⟨?_, ?_, ?_, ?_⟩
+    refine ⟨?_, ?_, ?_, ?_, trivial⟩
     · by_cases hi : d.ignorable = true <;> by_cases hn : s.hasNonIgn = true <;> simp [hi, hn]
     · by_cases hi : d.ignorable = true <;> by_cases hn : s.hasNonIgn = true <;> by_cases hc : s.canReset = true <;>
         by_cases ha : r.any (fun d => !d.ignorable) = true <;> simp [hi, hn, hc, ha]
     · by_cases he : d.isError = true <;> simp [he] <;> omega
     · by_cases hi : d.ignorable = true <;> simp [hi] <;> omega
+
+/-- emitting does not look at the stash -/
+theorem emitNowAll_stash (p : EmitProg) (hp : emitProgOk p = true) (ds : List Diag) (s : Sess) (x : List Diag) :
+    emitNowAll p { s with stash := x } ds = { emitNowAll p s ds with stash := x } := by
+  obtain ⟨a1, a2, a3, a4, a5⟩ := emitNowAll_of_ok p hp ds { s with stash := x }
+  obtain ⟨b1, b2, b3, b4, _⟩ := emitNowAll_of_ok p hp ds s
+  apply sess_eq
+  · rw [a1, b1]
+  · rw [a2, b2]
+  · rw [a3, b3]
+  · rw [a4, b4]
+  · rw [a5]
+
+/-- **a sequence of diagnostics leaving the parser**: the ones that are emitted act as above, the stashed ones
+are appended to the stash -/
+theorem emitAll_split (p : EmitProg) (hp : emitProgOk p = true) : ∀ (ds : List Diag) (s : Sess),
+    emitAll p s ds =
+      { emitNowAll p s (ds.filter fun d => !d.stashed) with stash := s.stash ++ ds.filter fun d => d.stashed } := by
+  intro ds
+  induction ds with
+  | nil =>
+    intro s
+    simp [emitAll, emitNowAll]
+  | cons d r ih =>
+    intro s
+    simp only [emitAll]
+    rw [ih]
+    by_cases hd : d.stashed = true
+    · simp only [dcxEmit, hd, if_true, List.filter_cons, Bool.not_true, Bool.false_eq_true, if_false]
+      rw [emitNowAll_stash p hp]
+      simp [List.append_assoc]
+    · simp only [Bool.not_eq_true] at hd
+      simp only [dcxEmit, hd, Bool.false_eq_true, if_false, List.filter_cons, Bool.not_false, if_true, emitNowAll]
+      rw [(dcxEmitNow_of_ok p hp s d).2.2.2.2]
+
+/-- the state a hard error leaves: the private flag up, `can_reset` down, a non-zero count -/
+def Poisoned (s : Sess) : Prop := s.hasNonIgn = true ∧ s.canReset = false ∧ s.errCount ≠ 0
+
+theorem poisoned_stable (p : EmitProg) (hp : emitProgOk p = true) (ds : List Diag) (s : Sess) (h : Poisoned s) :
+    Poisoned (emitNowAll p s ds) := by
+  obtain ⟨h1, h2, h3, _, _⟩ := emitNowAll_of_ok p hp ds s
+  obtain ⟨a, b, c⟩ := h
+  refine ⟨?_, ?_, ?_⟩
+  · rw [h1, a]; rfl
+  · rw [h2, a, b]
+    by_cases ha : ds.any (fun d => !d.ignorable) = true <;> simp [ha]
+  · rw [h3]; omega
+
+theorem hard_error_poisons_now (p : EmitProg) (hp : emitProgOk p = true) (ds : List Diag) (s : Sess)
+    (h : ds.any Diag.hardError = true) : Poisoned (emitNowAll p s ds) := by
+  obtain ⟨d, hd, hh⟩ := List.any_eq_true.1 h
+  simp only [Diag.hardError, Bool.and_eq_true, Bool.not_eq_true'] at hh
+  obtain ⟨h1, h2, h3, _, _⟩ := emitNowAll_of_ok p hp ds s
+  have ha : ds.any (fun d => !d.ignorable) = true := List.any_eq_true.2 ⟨d, hd, by simp [hh.2]⟩
+  have hc : 0 < ds.countP Diag.isError := List.countP_pos_iff.2 ⟨d, hd, hh.1⟩
+  refine ⟨?_, ?_, ?_⟩
+  · rw [h1, ha]; simp
+  · rw [h2]; simp [ha]
+  · rw [h3]; omega
+
+/-- **a hard error is never lost on the way to the decision**: after the diagnostics of a call have left the
+parser (emitted or stashed) and the stash has been emitted, the session is poisoned if any of them — or
+anything still in the stash from before — was a hard error -/
+theorem flush_poisoned (p : EmitProg) (hp : emitProgOk p = true) (ds : List Diag) (s : Sess)
+    (h : ds.any Diag.hardError = true) : Poisoned (flushStash p (emitAll p s ds)) := by
+  obtain ⟨d, hd, hh⟩ := List.any_eq_true.1 h
+  rw [emitAll_split p hp]
+  unfold flushStash
+  simp only
+  by_cases hs : d.stashed = true
+  · apply hard_error_poisons_now p hp
+    apply List.any_eq_true.2
+    refine ⟨d, ?_, hh⟩
+    simp only [List.mem_filter, List.mem_append, Bool.or_eq_true]
+    refine ⟨Or.inr ⟨hd, hs⟩, Or.inl ?_⟩
+    simp only [Diag.hardError, Bool.and_eq_true] at hh
+    exact hh.1
+  · apply poisoned_stable p hp
+    have : Poisoned (emitNowAll p s (ds.filter fun d => !d.stashed)) := by
+      apply hard_error_poisons_now p hp
+      apply List.any_eq_true.2
+      refine ⟨d, ?_, hh⟩
+      simp only [List.mem_filter]
+      exact ⟨hd, by simpa using hs⟩
+    exact this
 
 /-! ### the lift: a fault that is reached makes the annotated crate faulty -/
 
